@@ -188,10 +188,22 @@ func ruleRegistryWriters(c *Ctx, rule string) {
 	}
 	writers := globalWriters(info)
 	locks := map[*ssa.Function]*effects.LockInfo{}
+	anyWriter := false
+	for _, name := range names {
+		if len(writers[name]) > 0 {
+			anyWriter = true
+		}
+	}
 	for _, name := range names {
 		r.Saw("MAC payload registries (maps read by GetMACPayloadAndSize)", name)
 		ws := writers[name]
 		if len(ws) == 0 {
+			if anyWriter {
+				// a table of the accessor that nothing writes after initialisation (the standard commands in a flat
+				// array next to the registry of proprietary ones): there is no writer to check
+				r.OK(rule, "writers/"+name, "", "written after init by RegisterProprietaryMACCommand only", "never written after initialisation", false)
+				continue
+			}
 			r.Unknown(rule, "writers/"+name, "", "RegisterProprietaryMACCommand updates the registry", "no post-init write found (registration not recognised)")
 			continue
 		}
